@@ -3,10 +3,11 @@
 
    Not proved (checked on every generated package instead, see harness/props/c05.py): that the real traversal order of
    expand_exports / expand_wildcards (griffe_load) computes what the dependency-order schedule (griffe_sched) computes when no
-   gap event (findings F3, F8, F10) is reported; and the composition of the per-module theorems below into
-       forall acyclic programs of the grammar, agreeb top (griffe_sched top ms order) (py_import ms order) = true. *)
+   gap event (findings F3, F8, F10) is reported.  The composition of the per-module theorems into
+       agreeb top (griffe_sched top ms order) (py_import ms order) = true
+   for all programs that satisfy the decidable side conditions wf_prog / wf_run is C05_composition below. *)
 From Coq Require Import List ZArith String Bool Arith.
-From Verif Require Import Lib.Sexp Model.C05_imports Proofs.C05_imports.
+From Verif Require Import Lib.Sexp Model.C05_imports Model.C05_wf Proofs.C05_imports Proofs.C05_resolve Proofs.C05_main.
 Import ListNotations.
 Open Scope string_scope. Open Scope list_scope. Open Scope nat_scope.
 
@@ -216,3 +217,75 @@ Theorem C05_exports_pending_read_refuted :        (* F10 *)
     agreeb top (griffe_sched top ms order) (py_table (py_import ms order [])) = true.
 Proof. exact exports_pending_read_refuted. Qed.
 Print Assumptions C05_exports_pending_read_refuted.
+
+(* ---- the composition over a dependency order ----------------------------------------------------------------------------------- *)
+(* For every program (any number of modules and sub-packages, any statements of the grammar, any depth of re-export chains), if
+   - wf_prog holds (decidable, Model/C05_wf.v): the order has no repetition and every module in it is reached from the top package
+     through declared submodules; per module: one statement per line (finding F4), no `__all__.extend` (F6), bound names are plain
+     identifiers, a name of a submodule of the module is bound only by `from <the module> import <submodule>`, a module imports
+     from itself only its submodules, and every source of an assembled __all__ is bound exactly once, by an import standing before
+     the __all__ statement (F12), `x.__all__` through a module, a bare name through `from m import __all__ as name` (F11);
+   - CPython's import statement semantics (py_import) executes the modules in that order without error (so every import reads a
+     module that ran before: the order is a dependency order, the import graph is acyclic);
+   - wf_run holds on that run (decidable): a wildcard import never rebinds the name of a submodule of the importing package to
+     something else, a package without __all__ that binds one of its public submodules names it in a recorded import (F5), and no
+     wildcard import standing between the import of a source of an assembled __all__ and the __all__ statement exposes that name (F12);
+   then the dependency-order schedule of Griffe's per-module rules (visitor, exports expansion, wildcard expansion with the
+   line-number rule, self-alias skip and submodule special case, alias chains resolved by `final` with the model's fuel) binds in
+   every module exactly the names CPython binds, every name resolving to the object CPython refers to, and the same __all__. *)
+Theorem C05_composition :
+  forall top ms order pt,
+  wf_prog top ms order = true ->
+  py_import ms order [] = POk pt ->
+  wf_run ms pt = true ->
+  agreeb top (griffe_sched top ms order) pt = true.
+Proof. exact sched_agrees_with_cpython. Qed.
+Print Assumptions C05_composition.
+
+Theorem C05_composition_not_vacuous :
+  wf_prog "q" w13 o13 = true /\
+  exists pt, py_import w13 o13 [] = POk pt /\ wf_run w13 pt = true /\
+             agreeb "q" (griffe_sched "q" w13 o13) pt = true /\
+             (exists pm, get_py pt ["q"] = Some pm /\ List.length (pns pm) = 4).
+Proof. exact composition_is_not_vacuous. Qed.
+Print Assumptions C05_composition_not_vacuous.
+
+(* the fuel of `final`: a resolution that takes h hops is computed by every fuel >= h (the composition shows h <= number of modules + 1) *)
+Theorem C05_resolution_fuel :
+  forall top t P h m loc r, Res top t P h m loc r -> forall fuel, h <= fuel -> final fuel t top m loc = r.
+Proof. exact Res_final. Qed.
+Print Assumptions C05_resolution_fuel.
+
+(* a resolution is not disturbed by changes to modules it does not enter, as long as packages keep their submodule members *)
+Theorem C05_resolution_stable :
+  forall top t t' P h m loc r, lookups_kept top t t' P -> Res top t P h m loc r -> Res top t' P h m loc r.
+Proof. exact Res_stable. Qed.
+Print Assumptions C05_resolution_stable.
+
+Theorem C05_renamed_all_source_refuted :          (* F11 *)
+  exists top ms order,
+    is_ok (py_import ms order []) = true /\
+    agreeb top (loaded_table (griffe_load top ms)) (py_table (py_import ms order [])) = false /\
+    agreeb top (griffe_sched top ms order) (py_table (py_import ms order [])) = false /\
+    wf_prog top ms order = false /\
+    (exists m, In m ms /\ renamed_all_source (ms_body m) = true).
+Proof. exact renamed_all_source_refuted. Qed.
+Print Assumptions C05_renamed_all_source_refuted.
+
+Theorem C05_flow_insensitive_source_refuted :     (* F12: a wildcard import rebinds the source between its import and the __all__ statement *)
+  exists top ms order,
+    is_ok (py_import ms order []) = true /\
+    agreeb top (loaded_table (griffe_load top ms)) (py_table (py_import ms order [])) = false /\
+    agreeb top (griffe_sched top ms order) (py_table (py_import ms order [])) = false /\
+    wf_prog top ms order = true /\
+    sources_not_rebound ms (py_table (py_import ms order [])) = false.
+Proof. exact flow_insensitive_source_refuted. Qed.
+Print Assumptions C05_flow_insensitive_source_refuted.
+
+Theorem C05_rebound_source_refuted :              (* F12: the source is bound again after the __all__ statement that read it *)
+  exists top ms order,
+    is_ok (py_import ms order []) = true /\
+    agreeb top (griffe_sched top ms order) (py_table (py_import ms order [])) = false /\
+    (exists m, In m ms /\ refs_ok_from (ms_children m) [] (ms_body m) = false).
+Proof. exact rebound_source_refuted. Qed.
+Print Assumptions C05_rebound_source_refuted.
